@@ -1,6 +1,6 @@
 import Revm.Proofs.EvmLinkInterp2
 /-! LINK, the interpreter side of panic-freedom, part 3: **`run_the_loop`, for every fuel, ends in a result on a
-well-formed world, a soft failure, the EOFCREATE action or "out of fuel"** — never an interpreter fault, a fault of an
+well-formed world, a soft failure or "out of fuel"** — never an interpreter fault, a fault of an
 outcome insertion or a failing `free_context` — from a stack that satisfies the invariants: `LI` (EvmLinkTotal3), `SI`
 (C25's invariant per frame, part 2), targets loaded (L3 `EvmInstLoaded.Inv`), journal depth = stack length ≤ 1025
 (C07 `LoopInv`). -/
